@@ -31,12 +31,13 @@ def intake(name, wt, prop):
     rc_suite, out_suite = sh("cargo nextest run --workspace --offline -E 'not binary(seeded_demo)' 2>&1 | tail -5", cwd=wt)
     suite_ok = "181 passed" in out_suite
     ran.append("with change: cargo nextest run --workspace --offline -E 'not binary(seeded_demo)' -> " + out_suite.strip().split("\n")[-1])
-    rc_demo_with, out = sh("cargo test --offline -p purl --test seeded_demo 2>&1 | grep 'test result' | tail -1", cwd=wt)
+    feat = " --features serde" if "demo_setup" in meta else ""
+    rc_demo_with, out = sh("cargo test --offline -p purl%s --test seeded_demo 2>&1 | grep 'test result' | tail -1" % feat, cwd=wt)
     demo_with = out.strip()
     ran.append("with change: cargo test -p purl --test seeded_demo -> " + demo_with)
     # 2. without the change: demo passes
     sh("git stash -- purl/src", cwd=wt)
-    rc, out = sh("cargo test --offline -p purl --test seeded_demo 2>&1 | grep 'test result' | tail -1", cwd=wt)
+    rc, out = sh("cargo test --offline -p purl%s --test seeded_demo 2>&1 | grep 'test result' | tail -1" % feat, cwd=wt)
     demo_without = out.strip()
     ran.append("without change: cargo test -p purl --test seeded_demo -> " + demo_without)
     sh("git stash pop", cwd=wt)
